@@ -156,6 +156,7 @@ func main() {
 	params := flag.String("params", "", "scenario parameters k=v,k=v")
 	budget := flag.Float64("budget", 0, "wall-clock budget in seconds (0 = none)")
 	hashes := flag.Int64("indexhash", 0, "emit per-index hashes for indexes below N (determinism self-test)")
+	shrink := flag.String("shrink", "", "minimise the violation in this replay file in-process and print the result")
 	samples := flag.Int("samples", 2, "number of complete sample runs to emit")
 	flag.Parse()
 
@@ -200,6 +201,9 @@ func main() {
 		}
 	}
 
+	if *shrink != "" {
+		os.Exit(doShrink(run, *shrink, opts, enc, bw))
+	}
 	if *replay != "" {
 		os.Exit(doReplay(run, *replay, opts, enc, bw))
 	}
@@ -378,5 +382,42 @@ func doReplay(run runFn, path string, o hx.Opts, enc *json.Encoder, bw *bufio.Wr
 	if res.Violation != nil {
 		return 1
 	}
+	return 0
+}
+
+// doShrink minimises a functional (non-race) violation in-process.
+func doShrink(run runFn, path string, o hx.Opts, enc *json.Encoder, bw *bufio.Writer) int {
+	raw, err := os.ReadFile(path)
+	if err != nil {
+		fmt.Fprintln(os.Stderr, "worker:", err)
+		return 2
+	}
+	var rf ReplayFile
+	if err := json.Unmarshal(raw, &rf); err != nil {
+		fmt.Fprintln(os.Stderr, "worker: replay file:", err)
+		return 2
+	}
+	if rf.Forced != "" {
+		o.Scenario = rf.Forced
+	}
+	for k, v := range rf.Params {
+		o.Param[k] = v
+	}
+	o.Verbose = false
+	try := func(ch []uint32) ([]uint32, bool) {
+		oo := o
+		oo.Replay = ch
+		if oo.Replay == nil {
+			oo.Replay = []uint32{}
+		}
+		res := run(rf.Seed, rf.Index, oo)
+		if res.Violation != nil && res.Violation.Class == rf.Class && res.Violation.Key == rf.Key {
+			return res.Choices, true
+		}
+		return nil, false
+	}
+	best, tried := hx.Minimise(rf.Choices, try, time.Now().Add(40*time.Second), 20000)
+	enc.Encode(map[string]any{"kind": "shrunk", "choices": best, "tried": tried})
+	bw.Flush()
 	return 0
 }
